@@ -102,10 +102,13 @@ def gen(r):
 
 
 def run(tier, r):
+    oc.reset_hangs()
     ncases = 3000 if tier == "quick" else 42000
     vs, stats, samples, keys = [], {}, [], set()
     nontrivial = explored = 0
     for i in range(ncases):
+        if oc.too_many_hangs(stats):
+            break
         case = gen(r)
         v, info = oc.safe(check_case, PROP)(case)
         explored += 1
